@@ -17,6 +17,7 @@ import (
 	sdk "github.com/cosmos/cosmos-sdk/types"
 	stakingtypes "github.com/cosmos/cosmos-sdk/x/staking/types"
 	"github.com/ethereum/go-ethereum/common"
+	"github.com/ethereum/go-ethereum/crypto"
 
 	assetstypes "github.com/ExocoreNetwork/exocore/x/assets/types"
 	delegationtypes "github.com/ExocoreNetwork/exocore/x/delegation/types"
@@ -106,6 +107,10 @@ type World struct {
 	// IgnoreValSetErr: keep driving the application after the consensus-side model refused an update list
 	// (used by workloads that deliberately reach zero total power)
 	IgnoreValSetErr bool
+	// Proxy: when set, gateway operations are sent to this proxy contract (which is the configured gateway) and
+	// ProxyMode selects what it does after forwarding the call (0 return, 1 revert, 2 burn gas, 3 write storage)
+	Proxy     *common.Address
+	ProxyMode byte
 	AVSAddr   string
 }
 
@@ -240,7 +245,18 @@ func trunc(s string, n int) string {
 // deliverPrecompile delivers a gateway tx and decodes the success flag.
 func (w *World) deliverPrecompile(st *Step, from *sim.Account, pc string, to common.Address, method string, args ...interface{}) {
 	ctx := w.C.Ctx()
-	bz, err := w.C.PrecompileTx(ctx, from, pc, to, method, args...)
+	var bz []byte
+	var err error
+	if w.Proxy != nil && (pc == "assets" || pc == "delegation" || pc == "reward") {
+		var data []byte
+		data, err = sim.ABI(pc).Pack(method, args...)
+		if err == nil {
+			st.P["proxy_mode"] = fmt.Sprint(w.ProxyMode)
+			bz, _, err = w.C.EthTx(ctx, sim.EthTxArgs{From: from, To: w.Proxy, Data: w.proxyData(to, w.ProxyMode, data), GasLimit: 2_000_000})
+		}
+	} else {
+		bz, err = w.C.PrecompileTx(ctx, from, pc, to, method, args...)
+	}
 	if err != nil {
 		st.Fail = true
 		st.Err = "build: " + err.Error()
@@ -380,7 +396,7 @@ func (w *World) RegisterOperator(o *Oper) *Step {
 	st.Oper = o
 	st.P["operator"] = o.Addr()
 	msg := &operatortypes.RegisterOperatorReq{FromAddress: o.Addr(), Info: &operatortypes.OperatorInfo{
-		EarningsAddr: o.Addr(), OperatorMetaInfo: o.Acct.Name,
+		EarningsAddr: o.Addr(), ApproveAddr: o.Addr(), OperatorMetaInfo: o.Acct.Name,
 		Commission: stakingCommission(),
 	}}
 	bz, err := w.C.CosmosTx(w.C.Ctx(), o.Acct, sim.CosmosTxOpts{}, msg)
@@ -658,4 +674,62 @@ func (w *World) CheckTxStep(kind string, bz []byte, recheck bool, p map[string]s
 		st.Ack = true
 	}
 	return w.finish(st)
+}
+
+// DeployContract sends a contract-creation transaction with the given init code.
+func (w *World) DeployContract(from *sim.Account, initCode []byte) (common.Address, *Step) {
+	st := w.newStep("deploy", "evm")
+	ctx := w.C.Ctx()
+	nonce := w.C.App.EvmKeeper.GetNonce(ctx, from.Eth)
+	addr := crypto.CreateAddress(from.Eth, nonce)
+	st.P["address"] = addr.String()
+	bz, _, err := w.C.EthTx(ctx, sim.EthTxArgs{From: from, To: nil, Data: initCode, GasLimit: 1_000_000})
+	if err != nil {
+		st.Fail, st.Err = true, "build: "+err.Error()
+		return addr, w.finish(st)
+	}
+	st.TxBytes = bz
+	n := len(w.C.Panics)
+	res, ok := w.C.DeliverTx(bz)
+	if !ok {
+		st.Panic, st.Fail = w.C.Panics[n].Value, true
+		return addr, w.finish(st)
+	}
+	st.TxRes = &res
+	er := sim.DecodeEthResult(res)
+	st.Eth = &er
+	if er.Failed {
+		st.Fail = true
+		st.Err = fmt.Sprintf("code %d vmerr %q log %s", er.Code, er.VmError, trunc(er.Log, 200))
+	} else {
+		st.Ack = true
+	}
+	return addr, w.finish(st)
+}
+
+// UseProxyGateway deploys the proxy contract and makes it the configured gateway: every precompile operation of
+// the workload is then a call of the proxy (mode: 0 forward, 1 revert afterwards, 2 burn all gas afterwards).
+func (w *World) UseProxyGateway(runtime []byte, deployInit []byte) bool {
+	addr, st := w.DeployContract(w.gateway(), deployInit)
+	if !st.Ack {
+		return false
+	}
+	ctx := w.C.Ctx()
+	p, err := w.C.App.AssetsKeeper.GetParams(ctx)
+	if err != nil {
+		return false
+	}
+	p.ExocoreLzAppAddress = addr.String()
+	if err := w.C.App.AssetsKeeper.SetParams(ctx, p); err != nil {
+		return false
+	}
+	w.Proxy = &addr
+	w.Last = w.C.Snapshot()
+	return true
+}
+
+func (w *World) proxyData(target common.Address, mode byte, payload []byte) []byte {
+	out := append([]byte{}, target.Bytes()...)
+	out = append(out, mode)
+	return append(out, payload...)
 }
